@@ -464,7 +464,8 @@ Definition call_handler (k : hkind) (now : Z) (e : elem) (s : state) : state * e
   | HSm =>
       match e_name e with
       | NmEnabled =>
-          if e_sm_resume e && negb (e_sm_id e) then (set_sm_enabled false s, [], false)
+          if negb (sm_enabled s) then (s, [], false)    (* we did not send <enable/>: err_sm *)
+          else if e_sm_resume e && negb (e_sm_id e) then (set_sm_enabled false s, [], false)
           else
             let s1 := if e_sm_resume e then set_sm_has_id true (set_sm_can_resume true s) else s in
             let '(s2, o) := stream_negotiation_success (sm_queue_resend s1) in (s2, o, false)
